@@ -48,7 +48,7 @@ impl Prop for C07 {
     fn rule(&self) -> String {
         "Generated: Decimal representations from all coefficient classes, extra weight on values in (-1, 1) (fractions with leading zeros), 39-digit coefficients, non-normalised zero and trailing zeros. \
          to_string(), String::from(d), format!(\"{}\"), write! into a user fmt::Write / io::Write, Display through references and Box<dyn Display>, and the text inside Debug's Dec!(..) (also inside a derived struct with {:#?}) (also when Debug is invoked with precision / width / sign / zero / alternate options, directly or through a tuple / Option) must equal a reference string built from the decimal digits of |coefficient| (integer formatting of std, padding, point insertion); \
-         Decimal::from_str of that string must return exactly (coefficient, scale); with serde-as-str serde_json::to_string is the JSON string of the same text and from_str of it returns (coefficient, scale). \
+         Decimal::from_str of that string must return exactly (coefficient, scale); with serde-as-str also through a minimal non-self-describing serde format (length-prefixed string, deserialize_any unsupported, borrowed and owned strings); serde_json::to_string is the JSON string of the same text and from_str of it returns (coefficient, scale). \
          Non-trivial: scale > 0. Distinct: hash of (coefficient, scale)."
             .into()
     }
@@ -210,6 +210,51 @@ impl Prop for C07 {
             ("serde_json value round trip", catch(|| {
                 let v = serde_json::to_value(d).ok()?;
                 serde_json::from_value::<Decimal>(v).ok().map(|r| (r.coefficient(), r.n_frac_digits()))
+            })),
+            // other Deserializer entry points: owned scratch strings (escape sequence inside the
+            // JSON string), a reader, a byte slice, a struct field and a sequence element
+            ("serde_json from a string with an escape", catch(|| {
+                // the first character of the canonical text written as \u00XX
+                let first = want.chars().next()?;
+                let j = format!("\"\\u{:04x}{}\"", first as u32, &want[first.len_utf8()..]);
+                serde_json::from_str::<Decimal>(&j).ok().map(|r| (r.coefficient(), r.n_frac_digits()))
+            })),
+            ("serde_json from_reader / from_slice", catch(|| {
+                let j = serde_json::to_vec(&d).ok()?;
+                let a = serde_json::from_reader::<_, Decimal>(&j[..]).ok().map(|r| (r.coefficient(), r.n_frac_digits()))?;
+                let b = serde_json::from_slice::<Decimal>(&j).ok().map(|r| (r.coefficient(), r.n_frac_digits()))?;
+                if a == b { Some(a) } else { None }
+            })),
+            // a serde format that is NOT self-describing (no type tags on the wire, deserialize_any
+            // is an error - the way bincode / postcard work): the Decimal must travel as its string
+            ("non-self-describing serde format", catch(|| {
+                let mut all: Vec<(i128, u8)> = Vec::new();
+                for human in [false, true] {
+                    let wire = crate::nsd::to_bytes(&d, human).ok()?;
+                    let mut expect = (want.len() as u32).to_le_bytes().to_vec();
+                    expect.extend_from_slice(want.as_bytes());
+                    if wire != expect {
+                        return None;
+                    }
+                    for owned in [false, true] {
+                        let r: Decimal = crate::nsd::from_bytes(&wire, owned, human).ok()?;
+                        all.push((r.coefficient(), r.n_frac_digits()));
+                    }
+                }
+                if all.iter().all(|v| *v == all[0]) { Some(all[0]) } else { None }
+            })),
+            ("serde_json inside a struct and a Vec", catch(|| {
+                #[derive(serde::Serialize, serde::Deserialize)]
+                struct Holder {
+                    amount: Decimal,
+                    items: Vec<Decimal>,
+                    maybe: Option<Decimal>,
+                }
+                let j = serde_json::to_string(&Holder { amount: d, items: vec![d, d], maybe: Some(d) }).ok()?;
+                let h: Holder = serde_json::from_str(&j).ok()?;
+                let rep = |r: Decimal| (r.coefficient(), r.n_frac_digits());
+                let all = [rep(h.amount), rep(h.items[0]), rep(h.items[1]), rep(h.maybe?)];
+                if all.iter().all(|v| *v == all[0]) { Some(all[0]) } else { None }
             })),
         ];
         for (name, r) in back {
